@@ -132,7 +132,7 @@ static void h_op(void)
     buf[n] = 0; h_out("st=%s", buf); free(buf); free(x);
   } else if (!strcmp(op, "hscore")) {
     int b = -7777, st = esl_histogram_Score2Bin(H, h_argbits("x"), &b);
-    h_out("%s b=%d", h_status(st), b);
+    h_out("%s b=%d lb=%s", h_status(st), b, h_dbits(esl_histogram_Bin2LBound(H, b)));   /* lb: the bin's lower bound, independent of array indexing */
   } else if (!strcmp(op, "hdump")) {
     dump();
   } else if (!strcmp(op, "hrank")) {
